@@ -17,7 +17,8 @@ def _flatten_token_list(outputs: MutableSequence[Token]) -> MutableSequence[Toke
     flattened_list: list[Token] = []
     for token in sorted(outputs, key=lambda t: int(t.tag.split(".")[-1])):
         if isinstance(token, ListToken):
-            flattened_list.extend(_flatten_token_list(token.value))
+            # CWL `merge_flattened` concatenates the source arrays: only one level is removed
+            flattened_list.extend(token.value)
         else:
             flattened_list.append(token)
     return flattened_list
